@@ -6,6 +6,12 @@ import logging as _logging
 
 logger = _logging.getLogger(__name__)
 
+# Verification hook (off unless SCARED_VERIF=1): lets a test harness force and observe the accumulation kernel choice.
+import os as _os  # noqa: E402
+_VERIF = _os.environ.get('SCARED_VERIF') == '1'
+_VERIF_FORCE_KERNEL = []
+_VERIF_KERNEL_LOG = []
+
 
 class _PartitionnedDistinguisherBaseMixin(DistinguisherMixin):
 
@@ -115,11 +121,17 @@ class PartitionedDistinguisherMixin(_PartitionnedDistinguisherBaseMixin):
         Otherwise, the fastest method is selected empirically.
         """
         if len(self.partitions) > 9:
+            if _VERIF:
+                _VERIF_KERNEL_LOG.append(0)
             self._accumulate_core_1(traces, data, self.sum, self.sum_square, self.counters, self.precision)
         else:
             if not hasattr(self, '_timings'):
                 self._timings = [-2, -1]
             function_idx = _np.argmin(self._timings)
+            if _VERIF and _VERIF_FORCE_KERNEL:
+                function_idx = _VERIF_FORCE_KERNEL.pop(0)
+            if _VERIF:
+                _VERIF_KERNEL_LOG.append(int(function_idx))
             function = [self._accumulate_core_1, self._accumulate_core_2][function_idx]
             t0 = _time.process_time()
             function(traces, data, self.sum, self.sum_square, self.counters, self.precision)
